@@ -1088,13 +1088,14 @@ def bg_nontrivial(si):
     return any((c.cmd == "bgraph" and len(c.O.get("bg_tree", [])) >= 1) or (c.cmd == "mstraw" and len(c.O.get("raw_b", [])) >= 1) for c in si.calls)
 
 
-register("C15", lean_modules=["FsProofs.Properties.ClosedC15", "FsProofs.Properties.ShapesC15", "FsProofs.Properties.C15UnionFind", "FsProofs.Properties.C15", "FsProofs.Properties.C15Min", "FsProofs.Properties.C15Cert", "FsProofs.Properties.C15Connect", "FsProofs.Properties.C15Bottleneck", "FsProofs.Properties.C01MstOrientComplete"],
-         theorems=["Fs.Closed.validPerm_kruskal_msf", "Fs.Closed.grid_C15_passes", "Fs.Closed.grid_C15_kruskal", "Fs.Closed.grid_C15_kruskal_virtual", "Fs.Closed.grid_C15_kruskal_connects", "Fs.Closed.grid_C15_orient", "Fs.Closed.grid_C15_orient_tree", "Fs.Closed.grid_C15_reached", "Fs.Closed.raster_C15_passes", "Fs.Closed.raster_C15_kruskal", "Fs.Closed.raster_C15_orient", "Fs.Closed.mesh_C15_passes", "Fs.Closed.mesh_C15_kruskal", "Fs.Closed.mesh_C15_orient", "Fs.Closed.profile_C15_passes", "Fs.Closed.profile_C15_kruskal", "Fs.Closed.profile_C15_orient", "Fs.Shapes.source_shape_C15", "Fs.C15.kruskalUF_eq", "Fs.C15.find_spec", "Fs.C15.find_compresses", "Fs.C15.merge_spec", "Fs.C15.kruskalUF_min_weight", "Fs.C15.kruskal_exec_bottleneck", "Fs.C15.kruskal_minimax_iff", "Fs.C15Connect.c15_edge_sound", "Fs.C15Connect.c15_edge_unique", "Fs.C15Connect.c15_lowest_pass", "Fs.C15Connect.c15_lowest_pass_exists", "Fs.C15Connect.c15_virtual",
+register("C15", lean_modules=["FsModel.PassCheck", "FsProofs.Properties.PassCheck", "FsProofs.Properties.ClosedC15", "FsProofs.Properties.ShapesC15", "FsProofs.Properties.C15UnionFind", "FsProofs.Properties.C15", "FsProofs.Properties.C15Min", "FsProofs.Properties.C15Cert", "FsProofs.Properties.C15Connect", "FsProofs.Properties.C15Bottleneck", "FsProofs.Properties.C01MstOrientComplete"],
+         theorems=["Fs.ImplCheck.checkPasses_sound", "Fs.ImplCheck.checkPasses_lowest", "Fs.Closed.validPerm_kruskal_msf", "Fs.Closed.grid_C15_passes", "Fs.Closed.grid_C15_kruskal", "Fs.Closed.grid_C15_kruskal_virtual", "Fs.Closed.grid_C15_kruskal_connects", "Fs.Closed.grid_C15_orient", "Fs.Closed.grid_C15_orient_tree", "Fs.Closed.grid_C15_reached", "Fs.Closed.raster_C15_passes", "Fs.Closed.raster_C15_kruskal", "Fs.Closed.raster_C15_orient", "Fs.Closed.mesh_C15_passes", "Fs.Closed.mesh_C15_kruskal", "Fs.Closed.mesh_C15_orient", "Fs.Closed.profile_C15_passes", "Fs.Closed.profile_C15_kruskal", "Fs.Closed.profile_C15_orient", "Fs.Shapes.source_shape_C15", "Fs.C15.kruskalUF_eq", "Fs.C15.find_spec", "Fs.C15.find_compresses", "Fs.C15.merge_spec", "Fs.C15.kruskalUF_min_weight", "Fs.C15.kruskal_exec_bottleneck", "Fs.C15.kruskal_minimax_iff", "Fs.C15Connect.c15_edge_sound", "Fs.C15Connect.c15_edge_unique", "Fs.C15Connect.c15_lowest_pass", "Fs.C15Connect.c15_lowest_pass_exists", "Fs.C15Connect.c15_virtual",
                    "Fs.C01Mst.orient_spec", "Fs.C01Mst.orient_reached_iff", "Fs.C15.certImpl_sound", "Fs.C15.certOk_sound", "Fs.C15.certOk_kruskal", "Fs.C15.kruskal_exec_min_weight", "Fs.C15.kruskal_exec_is_spanning_forest", "Fs.C15.kruskal_min_weight", "Fs.C15.kruskal_minimum_spanning_forest", "Fs.C15.validPerm_sorted", "Fs.C15.exchange",
                    "Fs.C15.kruskal_sim", "Fs.C15.kruskal_spanning", "Fs.C15.kruskal_forest", "Fs.Kruskal.kruskal_agree", "Fs.Kruskal.kruskal_forest"],
          gen=gen_bgraph, oracles=[oracle.c15, oracle.c15_raw], nontrivial=bg_nontrivial, tags=bg_tags,
          sections={"bg_outlets", "bg_edges", "bg_tree", "raw_k", "raw_b", "raw_b2"},
-         model_certs={"cert_raw_impl_k": ("1", "tree_minimum_weight_certificate", "the Lean certificate checker certOk (Fs.C15.certOk_sound) rejects the Kruskal tree REPORTED BY THE IMPLEMENTATION for a synthetic basin graph"),
+         model_certs={"bg_cert_passes": ("1", "connect_lowest_pass", "the Lean checker checkPasses (soundness: Fs.ImplCheck.checkPasses_sound) rejects the edge array REPORTED BY THE IMPLEMENTATION: a real edge is not a neighbouring unmasked pair with its labels and pass elevation max(f p0, f p1), two edges join the same pair of basins, some neighbouring pair of two basins is lower than the stored pass (or has no edge), or the virtual edges do not tie every further outer basin to one root exactly once - each clause up to the swap of ends orient_edges may have made"),
+                      "cert_raw_impl_k": ("1", "tree_minimum_weight_certificate", "the Lean certificate checker certOk (Fs.C15.certOk_sound) rejects the Kruskal tree REPORTED BY THE IMPLEMENTATION for a synthetic basin graph"),
                       "cert_raw_impl_b": ("1", "tree_minimum_weight_certificate", "the Lean certificate checker certOk (Fs.C15.certOk_sound) rejects the Boruvka tree REPORTED BY THE IMPLEMENTATION for a synthetic basin graph"),
                       "cert_raw_perm": ("1", "kruskal_sorted_permutation", "the order std::sort gave the edges of a synthetic basin graph is not a weight-sorted permutation (validPerm)"),
                       "cert_raw_k": ("1", "tree_minimum_weight_certificate", "certOk rejects the model's own union-find Kruskal tree on a synthetic basin graph"),
@@ -1105,7 +1106,7 @@ register("C15", lean_modules=["FsProofs.Properties.ClosedC15", "FsProofs.Propert
          trusted_base=FLOW_TB + ["std::sort tie order of Kruskal is recomputed by the harness with the same comparator and handed to the model, which validates it is a weight-sorted permutation",
                                  "m_max_low_degree regenerated from basin_graph.hpp"])
 _lvl("C15", "proof",
-     "Theorems about the executed basin-graph model: UNION-FIND (FsModel/UnionFind.lean transcribes utils/union_find.hpp: two-pass find with path compression, union by rank; the model driver builds the Kruskal tree it prints with it): find_spec / find_compresses / merge_spec (find returns the root, compresses exactly the path, changes no class; merge unites exactly the two classes and keeps the rank invariant) and kruskalUF_eq (Kruskal over this union-find accepts exactly the edges of the class-map Kruskal, so every theorem below transfers); connect_basins (c15_edge_sound, c15_edge_unique, c15_lowest_pass_exists, c15_lowest_pass, c15_virtual: every real edge joins a node of an inner basin to a neighbouring node of another basin with pass height max of the two elevations; one edge per basin pair; no joining pair is strictly lower than the stored pass; outer basins are linked to the first outer basin = root by virtual edges - for any topology, mask, base levels, under the block structure of the bottom-up order proved in C19); Kruskal: kruskal_sim (the executed array Kruskal accepts exactly what the abstract class-map Kruskal accepts), kruskal_exec_is_spanning_forest, kruskal_exec_min_weight (exchange argument: for a weight-sorted order the tree has minimum total pass elevation among ALL spanning forests of the edge set; validPerm_sorted ties the order the harness hands over), so #tree = #basins - #components; Boruvka (imperative, not reasoned about directly) and the implementation's own output are covered by a CERTIFICATE CHECKER evaluated by the model driver on every basin-graph scenario - certOk on the model's raw tree and certImpl on the edge array and tree REPORTED BY THE C++ - with soundness theorems certOk_sound / certImpl_sound (accepted => spanning forest of minimum total weight among all spanning forests; equal weight multiset as a Kruskal tree) and certOk_kruskal (Kruskal's own tree is always accepted). kruskal_exec_bottleneck / kruskal_minimax_iff (C15Bottleneck.lean): two basins joined by passes of height <= b in the basin graph are joined by TREE passes of height <= b (the tree is a minimax / bottleneck tree - what makes the filled level the spill level). Orientation: orient_spec (the executed depth-first orientation returns, for a forest, an arborescence from the root: every returned edge is the original or its flip, each reached basin is the head of exactly one edge, depth(head) = depth(tail) + 1, the root is never a head) and orient_reached_iff (reached = connected to the root in the tree). CLOSED OVER THE EXECUTED GRIDS (ClosedC15.lean): every hypothesis of the theorems above is discharged for the graph of the executed single router on any grid with EnvOk (raster, mesh, profile), leaving only run-time facts (work arrays fit; the permutation handed over passes validPerm; elevations above -DBL_MAX): grid_C15_passes (stored pass of two adjacent basins = max(f p0, f p1) of a neighbouring unmasked pair, unique per basin pair, and <= max(f i, f j) for EVERY neighbouring unmasked pair joining the two basins, in either orientation; virtual edges exactly one per further outer basin), validPerm_kruskal_msf / grid_C15_kruskal (the tree executed by union-find = Kruskal's, a spanning forest of the WHOLE stored basin graph, of minimum total weight among all spanning forests, and bottleneck-equivalent to the basin graph), grid_C15_kruskal_connects (node-level: unmasked-neighbour-connected nodes lie in tree-connected basins), grid_C15_orient / _orient_tree / _reached (rooted orientation: in-degree one, depth function, parent chain to the root, reached basins = tree component of the root), with raster_/mesh_/profile_ instances and computed non-vacuity examples (on the fan mesh the tree [5,6,7,8,0] has weight -3997 against -3996 for another forest).",
+     "Theorems about the executed basin-graph model: UNION-FIND (FsModel/UnionFind.lean transcribes utils/union_find.hpp: two-pass find with path compression, union by rank; the model driver builds the Kruskal tree it prints with it): find_spec / find_compresses / merge_spec (find returns the root, compresses exactly the path, changes no class; merge unites exactly the two classes and keeps the rank invariant) and kruskalUF_eq (Kruskal over this union-find accepts exactly the edges of the class-map Kruskal, so every theorem below transfers); connect_basins (c15_edge_sound, c15_edge_unique, c15_lowest_pass_exists, c15_lowest_pass, c15_virtual: every real edge joins a node of an inner basin to a neighbouring node of another basin with pass height max of the two elevations; one edge per basin pair; no joining pair is strictly lower than the stored pass; outer basins are linked to the first outer basin = root by virtual edges - for any topology, mask, base levels, under the block structure of the bottom-up order proved in C19); Kruskal: kruskal_sim (the executed array Kruskal accepts exactly what the abstract class-map Kruskal accepts), kruskal_exec_is_spanning_forest, kruskal_exec_min_weight (exchange argument: for a weight-sorted order the tree has minimum total pass elevation among ALL spanning forests of the edge set; validPerm_sorted ties the order the harness hands over), so #tree = #basins - #components; Boruvka (imperative, not reasoned about directly) and the implementation's own output are covered by a CERTIFICATE CHECKER evaluated by the model driver on every basin-graph scenario - certOk on the model's raw tree and certImpl on the edge array and tree REPORTED BY THE C++ - with soundness theorems certOk_sound / certImpl_sound (accepted => spanning forest of minimum total weight among all spanning forests; equal weight multiset as a Kruskal tree) and certOk_kruskal (Kruskal's own tree is always accepted). kruskal_exec_bottleneck / kruskal_minimax_iff (C15Bottleneck.lean): two basins joined by passes of height <= b in the basin graph are joined by TREE passes of height <= b (the tree is a minimax / bottleneck tree - what makes the filled level the spill level). Orientation: orient_spec (the executed depth-first orientation returns, for a forest, an arborescence from the root: every returned edge is the original or its flip, each reached basin is the head of exactly one edge, depth(head) = depth(tail) + 1, the root is never a head) and orient_reached_iff (reached = connected to the root in the tree). CLOSED OVER THE EXECUTED GRIDS (ClosedC15.lean): every hypothesis of the theorems above is discharged for the graph of the executed single router on any grid with EnvOk (raster, mesh, profile), leaving only run-time facts (work arrays fit; the permutation handed over passes validPerm; elevations above -DBL_MAX): grid_C15_passes (stored pass of two adjacent basins = max(f p0, f p1) of a neighbouring unmasked pair, unique per basin pair, and <= max(f i, f j) for EVERY neighbouring unmasked pair joining the two basins, in either orientation; virtual edges exactly one per further outer basin), validPerm_kruskal_msf / grid_C15_kruskal (the tree executed by union-find = Kruskal's, a spanning forest of the WHOLE stored basin graph, of minimum total weight among all spanning forests, and bottleneck-equivalent to the basin graph), grid_C15_kruskal_connects (node-level: unmasked-neighbour-connected nodes lie in tree-connected basins), grid_C15_orient / _orient_tree / _reached (rooted orientation: in-degree one, depth function, parent chain to the root, reached basins = tree component of the root), with raster_/mesh_/profile_ instances and computed non-vacuity examples (on the fan mesh the tree [5,6,7,8,0] has weight -3997 against -3996 for another forest). VERIFIED CHECKER ON THE IMPLEMENTATION'S EDGE ARRAY (FsModel/PassCheck.lean): bg_cert_passes = checkPasses on the edges the C++ reported (checkPasses_sound, no order law needed: the stored pass of two basins is a minimum of max(f i, f j) over EVERY neighbouring unmasked pair joining them; at most one edge per pair; virtual edges exactly as specified; all up to the swap orient_edges makes).",
      "Lean 4 fold-invariant proof (connect_basins) + simulation + exchange-argument minimality proof + proved-sound certificate checker run on model and implementation outputs + exact correspondence of connect/Kruskal/Boruvka/orient + independent MST-weight oracle")
 
 
